@@ -407,6 +407,38 @@ class ManifestRecursiveLoader:
                 key=lambda kdv: len(kdv[1]),
                 reverse=True)
 
+    def _iter_manifests_for_saving(self):
+        """
+        Iterate over all loaded Manifests in the order suitable for
+        saving them: like _iter_manifests_for_path('', recursive=True)
+        but additionally a Manifest referenced from another Manifest
+        of the same directory (e.g. Manifest -> Manifest.files.gz)
+        is returned before the Manifest referencing it, so that
+        the MANIFEST entry is computed from the rewritten file.
+        """
+        manifests = self._iter_manifests_for_path('', recursive=True)
+        by_path = dict((kdv[0], kdv) for kdv in manifests)
+        ordered = []
+        done = set()
+
+        def visit(kdv):
+            mpath, relpath, m = kdv
+            if mpath in done:
+                return
+            done.add(mpath)
+            for e in m.entries:
+                if e.tag != 'MANIFEST':
+                    continue
+                fullpath = os.path.join(relpath, e.path)
+                if (os.path.dirname(fullpath) == relpath
+                        and fullpath in by_path):
+                    visit(by_path[fullpath])
+            ordered.append(kdv)
+
+        for kdv in manifests:
+            visit(kdv)
+        return ordered
+
     def load_manifests_for_path(self, path, recursive=False, verify=True):
         """
         Load all Manifests that may apply to the specified path,
@@ -754,8 +786,7 @@ class ManifestRecursiveLoader:
 
         fixed_manifests = set()
         renamed_manifests = {}
-        for mpath, relpath, m in self._iter_manifests_for_path(
-                '', recursive=True):
+        for mpath, relpath, m in self._iter_manifests_for_saving():
             for e in m.entries:
                 if e.tag != 'MANIFEST':
                     continue
